@@ -31,7 +31,15 @@ for key, lm in sorted(LEMMAS.items()):
             doms.append(["", "a", "ab "])
         else:
             raise SystemExit(f"engine lemma {key}: parameter kind not sampled")
-    native = [bool(lm.fn(*vals)) for vals in itertools.product(*doms)]
+    def run_native(vals):
+        import asyncio
+        import contextvars
+        import inspect
+        r = contextvars.copy_context().run(lambda: lm.fn(*vals))
+        if inspect.iscoroutine(r):
+            r = contextvars.copy_context().run(asyncio.run, r)
+        return bool(r)
+    native = [run_native(vals) for vals in itertools.product(*doms)]
     canary = lm.expect_sat
     lm.expect_sat = False          # raw verdict of the engine: discharged = proved, violated = refuted
     rec = _lemma_worker(key)
